@@ -21,6 +21,12 @@ CHECKS = {
   'C04': dict(category='other', technique='symbolic execution of the traced jaxpr (polynomial normal forms, reciprocal atoms reduced modulo their relations) + QF_LRA monomial-abstraction queries, NRA/replay on sat',
               text='Metamorphic polynomial identity decided for ALL admissible states: explicit+implicit tendency of the same physical atmosphere under two reference-temperature profiles agree (dry, with-time, moist, cloud classes; orography; tracers; even/uneven levels; non-monotone profiles).',
               design='§3 C04'),
+  'C05': dict(category='other', technique='symbolic execution of the traced jaxpr on balanced families with symbolic parameters + QF_LRA monomial-abstraction queries',
+              text='Analytically balanced families have identically zero total tendency for ALL parameter values in the box: isothermal rest over arbitrary orography (every retained coefficient symbolic, T0 concrete and symbolic), solid-body rotation in gradient-wind balance (U, per-level temperatures, humidity, ln ps), geostrophic shallow-water jets (jet coefficients, 1-2 layers); moist(q=0)=dry for all states.',
+              design='§3 C05'),
+  'C06': dict(category='other', technique='power-series execution of the traced step functions (time step symbolic) + QF_LRA queries on Taylor coefficients; QF_NRA queries on the amplification factor; CrossHair for list-length validation',
+              text='Order conditions decided for ALL ODE coefficients (cubic scalar and tree-separating non-autonomous problem), reductions to parent explicit/implicit schemes, |R(z)|<=1 on the imaginary axis for all schemes and on the closed half plane where decided, leapfrog theta-method reduction and stability for several alpha, coefficient-length validation.',
+              design='§3 C06'),
   'C09': dict(category='translation_validation', technique='symbolic execution of both implementations on the same symbolic inputs + QF_LRA equivalence queries',
               text='Translation validation of RealSphericalHarmonics vs FastSphericalHarmonics under the fixed re-indexing for every Grid operation and each option combination (padding multiple, stacked transforms, einsum order), for ALL inputs in the box; model tendencies compared as polynomial identities.',
               design='§3 C09'),
